@@ -163,6 +163,8 @@ class TextFileComp:
 
 class YamlComp:
     traced = ("vinegar/data_source/yaml_target.py",)
+    # call/return granularity inside the compiler, line granularity in the methods that touch the shared cache
+    line_funcs = ("get_data", "compile_data", "find_system")
 
     def __init__(self, cfg, workdir):
         from vinegar.data_source.yaml_target import YamlTargetSource
@@ -262,7 +264,8 @@ def _run_once(case, preempt):
                     results[i].append(comp.do(op))
             return run
         s = sched.Scheduler([body(i) for i in range(len(threads))], comp.traced,
-                            preemptions=[tuple(p) for p in preempt], start_order=case.get("order"))
+                            preemptions=[tuple(p) for p in preempt], start_order=case.get("order"),
+                            line_funcs=getattr(comp, "line_funcs", None))
         s.run()
         deadlock = s.deadlock
         errors = [type(w.error).__name__ for w in s.workers if w.error is not None]
